@@ -483,6 +483,38 @@ func runC02(p *core.Prog, r *core.Report) {
 	// ---------------- R10 one definition of "a counted mark"
 	r10 := r.Rule("C02.R10", "the four places that move the GC counter agree on which marks are counted: either all of them count only marks of objects the shard stores, or none does", 4)
 	gcDefinitionAgrees(p, r, r10)
+	// ---------------- R11 what the helper took out reaches the counters
+	r11 := r.Rule("C02.R11", "DB.delete reports success only with the counter diff deleteMetadata built (also when the helper answered 'not stored here': it has removed the garbage mark and counted that)", 1)
+	if dfn := p.Func(mbDB + "delete"); dfn == nil {
+		r.Fatalf("C02.R11: DB.delete not found")
+	} else {
+		var diffV ssa.Value
+		for _, cs := range core.CallSites([]*ssa.Function{dfn}, func(s core.Site) bool { return s.Name == mb+"deleteMetadata" }) {
+			if v := cs.Call.Value(); v != nil && v.Referrers() != nil {
+				for _, ref := range *v.Referrers() {
+					if ex, ok := ref.(*ssa.Extract); ok && ex.Index == 0 {
+						diffV = ex
+					}
+				}
+			}
+		}
+		mr := core.NewMemReach(dfn)
+		n := 0
+		for _, b := range dfn.Blocks {
+			ret, ok := b.Instrs[len(b.Instrs)-1].(*ssa.Return)
+			if !ok || len(ret.Results) != 2 {
+				continue
+			}
+			if c, isC := ret.Results[1].(*ssa.Const); !isC || !c.IsNil() {
+				continue
+			}
+			n++
+			r11.Check(diffV != nil && mr.Canon(ret.Results[0]) == diffV, core.FuncName(dfn)+"#success!helper-diff", p.InstrPos(ret), "the diff returned with success is deleteMetadata's", "DB.delete reports success with a counter diff that is not the one deleteMetadata built: what the helper removed (e.g. the garbage mark of an id that is not stored here) never reaches the counters")
+		}
+		if n == 0 {
+			r.Fatalf("C02.R11: DB.delete has no success return")
+		}
+	}
 	// ---------------- R7 count once on put
 	r7 := r.Rule("C02.R7", "DB.put changes counters only for an object that is not indexed yet: exists()==(false, nil), or — when exists answered not-found because of a garbage mark — an explicit index probe found nothing", 1)
 	if put := p.Func(mbDB + "put"); put == nil {
